@@ -1,8 +1,218 @@
 import Driver.Util
-open Lean
+import Paroxy.Model.Hints
+import Paroxy.Model.ParseGlue
+import Paroxy.Spec.Hints
+open Lean Paroxy Paroxy.Hints Paroxy.Glue
 
 namespace Driver.C12
 
-def handlers : List (String × Handler) := []
+def str (s : Str) : Json := Json.str (String.ofList s)
+
+def errName : Err → String
+  | .valueError => "ValueError"
+  | .indexError => "IndexError"
+
+def exc (e : Err) : Json := Json.mkObj [("exc", Json.str (errName e))]
+
+def schedJson (s : Sched) : Json :=
+  Json.arr (s.map fun p =>
+    Json.arr #[str p.1, Json.arr (p.2.map fun sp => Json.arr #[Json.num sp.1, Json.num sp.2]).toArray]).toArray
+
+def programJson (p : Program) : Json :=
+  Json.mkObj [("source", str p.source), ("addition", schedJson p.addition), ("deletion", schedJson p.deletion)]
+
+def beforeName : Before → String
+  | .none => "" | .plus => "+" | .minus => "-" | .dots => "..."
+
+/-- Apply `f` to every string of the array `k` of the request. -/
+def mapStrs (k : String) (f : Str → Json) : Handler := fun j => do
+  let a ← getArr j k
+  let l ← a.toList.mapM fun x => x.getStr?
+  pure (Json.mkObj [("r", Json.arr (l.map fun s => f s.toList).toArray)])
+
+/-- `c12.get_program`: `⟦get_program⟧` on each source. -/
+def getProgramH : Handler := mapStrs "srcs" fun s =>
+  match getProgram s with
+  | .ok p => programJson p
+  | .error e => exc e
+
+def centrifugateH : Handler := mapStrs "srcs" fun s =>
+  match centrifugate s with
+  | .ok c => Json.mkObj [("r", str c)]
+  | .error e => exc e
+
+def collectH : Handler := mapStrs "srcs" fun s =>
+  match collectHints s with
+  | .ok (a, d) => Json.mkObj [("addition", schedJson a), ("deletion", schedJson d)]
+  | .error e => exc e
+
+def normLineH : Handler := mapStrs "lines" fun s => str (normLine s)
+def trimEndsH : Handler := mapStrs "srcs" fun s => str (trimEnds s)
+
+def removeHintsH : Handler := mapStrs "srcs" fun s => str (removeHints s)
+
+def matchLabelH : Handler := mapStrs "toks" fun s =>
+  match matchLabel s with
+  | some (b, l, a) => Json.arr #[Json.str (beforeName b), str l, Json.bool a]
+  | none => Json.null
+
+def isolatedH : Handler := mapStrs "lines" fun s =>
+  match isolatedRest s with
+  | some r => str r
+  | none => Json.null
+
+/-- `line.partition("# paroxython: ")` then `.split()`: `null` when the separator is absent. -/
+def hintTokensH : Handler := mapStrs "lines" fun s =>
+  match partitionAt m14 s with
+  | some p => Json.arr #[str p.1, Json.arr ((splitWs p.2).map str).toArray]
+  | none => Json.null
+
+/-! ### Specification side: decorated programs -/
+
+def getNatD (j : Json) (k : String) (d : Nat) : Nat :=
+  match j.getObjValAs? Nat k with
+  | .ok n => n
+  | .error _ => d
+
+def getBoolD (j : Json) (k : String) (d : Bool) : Bool :=
+  match j.getObjValAs? Bool k with
+  | .ok b => b
+  | .error _ => d
+
+def parseMark (s : String) : Except String Mark :=
+  match s with
+  | "one+" => pure (.one false)
+  | "one-" => pure (.one true)
+  | "opn+" => pure (.opn false)
+  | "opn-" => pure (.opn true)
+  | "cls" => pure .cls
+  | _ => throw s!"unknown mark {s}"
+
+def parseHint (j : Json) : Except String Hint := do
+  let m ← parseMark (← getStr j "mark")
+  let l ← getStr j "label"
+  pure ⟨m, l.toList, { plus := getBoolD j "plus" false, uni := getBoolD j "uni" false, gap := getNatD j "gap" 0 }⟩
+
+def parseMarker (j : Json) : MarkerStyle :=
+  match j.getObjVal? "marker" with
+  | .ok m =>
+    let capsMask := getNatD m "caps" 0
+    { sp1 := getNatD m "sp1" 1, caps := fun k => capsMask.testBit k, sp2 := getNatD m "sp2" 0, after := getNatD m "after" 1 }
+  | .error _ => {}
+
+def parseLine (j : Json) : Except String (Line × MarkerStyle) :=
+  match j.getObjValAs? String "isolated" with
+  | .ok l => pure (.isolated (getNatD j "indent" 0) l.toList, parseMarker j)
+  | .error _ => do
+    let code ← getStr j "code"
+    let hs ← (← getArr j "hints").toList.mapM parseHint
+    pure (.code { code := code.toList, pad := getNatD j "pad" 0, hints := hs }, parseMarker j)
+
+def allLabels (d : Decorated) : List Str :=
+  dedup (((codeLines d).flatMap fun c => c.hints.map (·.label)) ++ wholeLabels d)
+
+def sspanJson (p : SSpan) : Json := Json.arr #[Json.bool p.1, Json.num p.2.1, Json.num p.2.2]
+
+/-- `c12.spec_decorate`: the text of a decorated program (markers spelled as each line says),
+whether the hypotheses of C12_roundtrip hold of it, and what its hints say, label by label, on the
+normalised program (`normalised`, `events`, `balSpans`, `noTie`). -/
+def specDecorate : Handler := fun j => do
+  let d ← (← getArr j "lines").toList.mapM parseLine
+  let plain := d.map Prod.fst
+  let nd := normalised d
+  let labels := allLabels nd
+  let per := labels.map fun L =>
+    let ev := events nd L
+    Json.mkObj [("label", str L), ("notie", Json.bool (noTie ev)),
+      ("spans", match balSpans ev with
+        | some r => Json.arr (r.map sspanJson).toArray
+        | none => Json.null)]
+  let linesOk := (codeLines plain).all okCode && (wholeLabels plain).all cleanLabel && looseOk plain
+  pure (Json.mkObj [("src", str (decorateS d)), ("hygienic", Json.bool (linesOk && !(codeLines nd).isEmpty)),
+    ("lines_ok", Json.bool linesOk),
+    ("base", str (stripPy (joinNL (base nd)))), ("nlines", Json.num (codeLines nd).length), ("labels", Json.arr per.toArray)])
+
+/-- `c12.spec_malformed`: for each source, whether the hint tokens of its centrifugated text are
+malformed (`malformedB`) and tie-free (`tieFreeB`). -/
+def specMalformed : Handler := mapStrs "srcs" fun s =>
+  match centrifugate (prepare s) with
+  | .ok c => Json.mkObj [("malformed", Json.bool (malformedB (hintToks c)))]
+  | .error e => exc e
+
+/-! ### Parser glue -/
+
+def parseSched (j : Json) : Except String Sched := do
+  let a ← j.getArr?
+  a.toList.mapM fun e => do
+    let p ← e.getArr?
+    match p.toList with
+    | [n, l] =>
+      let name ← n.getStr?
+      let spans ← (← l.getArr?).toList.mapM fun sp => do
+        match ← intList sp with
+        | [s, e] => pure (s.toNat, e.toNat)
+        | _ => throw "span must be [s,e]"
+      pure (name.toList, spans)
+    | _ => throw "sched entry must be [name, spans]"
+
+def parseOcc (j : Json) : Except String Occ := do
+  let p ← j.getArr?
+  match p.toList with
+  | [n, s, e, path] => pure ((← n.getStr?).toList, (← s.getNat?), (← e.getNat?), (← path.getStr?).toList)
+  | _ => throw "occurrence must be [name, s, e, path]"
+
+def parseOccs (j : Json) : Except String (List Occ) := do (← j.getArr?).toList.mapM parseOcc
+
+def labelsJson (ls : Labels) : Json :=
+  Json.arr (ls.map fun p => Json.arr #[str p.1,
+    Json.arr (p.2.map fun s => Json.arr #[Json.num s.1, Json.num s.2.1, str s.2.2]).toArray]).toArray
+
+/-- `c12.glue`: the stages of `ProgramParser.__call__` on the recorded engine answers. -/
+def glueH : Handler := fun j => do
+  let del ← parseSched (← j.getObjVal? "deletion")
+  let add ← parseSched (← j.getObjVal? "addition")
+  let computed ← parseOccs (← j.getObjVal? "computed")
+  let derived ← (← getArr j "derived").toList.mapM parseOccs
+  let r := parse del add computed derived
+  pure (Json.mkObj [("labels", labelsJson r.1), ("left", schedJson r.2)])
+
+/-- `c12.spec_counts`: the multiset C12_deletion_exact names for one stage:
+(computed ∸ scheduled deletions) + scheduled additions, per (name, start, end). -/
+def specCounts : Handler := fun j => do
+  let del ← parseSched (← j.getObjVal? "deletion")
+  let add ← parseSched (← j.getObjVal? "addition")
+  let computed ← parseOccs (← j.getObjVal? "computed")
+  let ks : List (Str × Nat × Nat) :=
+    (computed.map fun o => (o.1, o.2.1, o.2.2.1)) ++ add.entries ++ del.entries
+  let uniq := ks.foldl (fun acc k => if acc.contains k then acc else acc ++ [k]) []
+  let rows := uniq.map fun k =>
+    let n := (occCount computed k.1 (k.2.1, k.2.2) - del.count k.1 (k.2.1, k.2.2)) + add.count k.1 (k.2.1, k.2.2)
+    let left := del.count k.1 (k.2.1, k.2.2) - occCount computed k.1 (k.2.1, k.2.2)
+    Json.arr #[str k.1, Json.num k.2.1, Json.num k.2.2, Json.num n, Json.num left]
+  pure (Json.mkObj [("rows", Json.arr rows.toArray), ("keys_nodup", Json.bool ((keys del).eraseDups.length == (keys del).length))])
+
+/-- `c12.get_bindings`: `⟦get_bindings⟧`. -/
+def getBindingsH : Handler := fun j => do
+  let label ← getStr j "label"
+  let pos ← strList (← j.getObjVal? "pos")
+  let suffix ← strList (← j.getObjVal? "suffix")
+  match pos with
+  | [] => throw "POS must not be empty"
+  | p0 :: rest =>
+    match getBindings label.toList p0.toList (rest.map (·.toList)) (suffix.map (·.toList)) with
+    | .ok l => pure (Json.mkObj [("r", Json.arr (l.map fun o =>
+        Json.arr #[str o.1, Json.num o.2.1, Json.num o.2.2.1, str o.2.2.2]).toArray)])
+    | .error _ => pure (Json.mkObj [("exc", "ValueError")])
+
+/-- `c12.error_span`: the span of the `ast_construction:*` label and the number of lines. -/
+def errorSpanH : Handler := mapStrs "srcs" fun s =>
+  Json.arr #[Json.num (errorSpan s).1, Json.num (errorSpan s).2, Json.num (lineCount s)]
+
+def handlers : List (String × Handler) :=
+  [("c12.get_program", getProgramH), ("c12.centrifugate", centrifugateH), ("c12.collect", collectH),
+   ("c12.remove_hints", removeHintsH), ("c12.match_label", matchLabelH), ("c12.isolated", isolatedH),
+   ("c12.hint_tokens", hintTokensH), ("c12.norm_line", normLineH), ("c12.trim_ends", trimEndsH), ("c12.spec_decorate", specDecorate), ("c12.spec_malformed", specMalformed),
+   ("c12.glue", glueH), ("c12.spec_counts", specCounts), ("c12.get_bindings", getBindingsH),
+   ("c12.error_span", errorSpanH)]
 
 end Driver.C12
